@@ -10,14 +10,17 @@ package main
 
 import (
 	"bytes"
+	"encoding/json"
 	"errors"
 	"fmt"
 	"os"
+	"os/exec"
 	"os/signal"
 	"path/filepath"
 	"sort"
 	"strings"
 	"syscall"
+	"time"
 
 	"github.com/RoaringBitmap/roaring/v2"
 	segment "github.com/blevesearch/scorch_segment_api/v2"
@@ -322,6 +325,10 @@ func writeFaults(r *RunCtx) {
 		maxOff = 48
 	}
 	fd0 := countFDs(r.tmp)
+	// syscall-level faults (EIO from write / fsync / close through strace): every
+	// run of the thorough tier, one run in twelve of the quick tier
+	doStrace := thorough || c.Prob(1, 12, "io.strace")
+	sidx := 0
 	switch c.Choose(3, "io.op") {
 	case 0: // WriteTo
 		h := w.pickBuilt()
@@ -385,6 +392,62 @@ func writeFaults(r *RunCtx) {
 			})
 			os.RemoveAll(p)
 		}
+		if doStrace {
+			for _, sf := range straceFaults {
+				sf := sf
+				r.straceChildOp(func(path string) straceOutcome {
+					err := sb.Persist(path)
+					o := straceOutcome{}
+					if err != nil {
+						o.Err = err.Error()
+					}
+					return o
+				})
+				if r.straceTarget != "" {
+					continue
+				}
+				target := r.path("strace")
+				out, ok := r.runStraceChild(sf, target, sidx)
+				sidx++
+				what := fmt.Sprintf("Persist(%s, %d bytes) under %s", h.Name, L, sf)
+				if !ok {
+					r.count("fault.strace.unavailable")
+					continue
+				}
+				r.count("fault.strace." + sf.sys)
+				if out.Err == "" && (sf.sys != "write" || sf.when == 1) {
+					// the first write, the fsync and the close of the output always
+					// happen: their failure must surface as an error
+					r.fail("C17.success-incomplete", "Persist", "%s reported success although the %s of its output failed", what, sf.sys)
+				}
+				if out.Err != "" {
+					r.NonTrivial = true
+					if fileExists(target) {
+						r.fail("C17.file-left-behind", "Persist", "%s returned %q but left a file behind", what, out.Err)
+					}
+				} else {
+					// the child built its own copy of the segment, whose bytes differ from
+					// the parent's in the map-ordered parts: judge by length, footer, CRC and
+					// content
+					data, rerr := os.ReadFile(target)
+					if rerr != nil {
+						r.fail("C17.success-incomplete", "Persist", "%s reported success but the file cannot be read: %v", what, rerr)
+					}
+					w.checkFooter("C17", data, h.Canon.Count, h.Mode)
+					seg, oerr := plugin.Open(target)
+					if oerr != nil {
+						r.fail("C17.success-incomplete", "Persist", "%s reported success but the file does not open: %v", what, oerr)
+					}
+					cn := w.extract(seg, what)
+					seg.Close()
+					if d := Same(h.Canon, cn, cmpAll); d != "" {
+						r.fail("C17.success-incomplete", "Persist", "%s reported success but the content differs: %s", what, d)
+					}
+				}
+				os.Remove(target)
+				r.evv("persist "+sf.sys, "%s -> err=%v", what, out.Err != "")
+			}
+		}
 		p := r.path("retry")
 		if err := sb.Persist(p); err != nil {
 			r.fail("C17.retry", "Persist", "fault-free Persist after the failed attempts failed: %v", err)
@@ -427,6 +490,44 @@ func writeFaults(r *RunCtx) {
 			engineQuiesce()
 			if l := engineLive(); l > live0 {
 				r.fail("C17.engine-leak", "Merge", "%s: %d vector indexes are still alive after the call (before: %d)", what, l, live0)
+			}
+		}
+		if doStrace {
+			for _, sf := range straceFaults {
+				sf := sf
+				r.straceChildOp(func(path string) straceOutcome {
+					maps, size, err := plugin.Merge(sc.segs, sc.drops, path, nil, &statsReporter{})
+					o := straceOutcome{Maps: maps, Size: size}
+					if err != nil {
+						o.Err = err.Error()
+					}
+					return o
+				})
+				if r.straceTarget != "" {
+					continue
+				}
+				target := r.path("strace")
+				out, ok := r.runStraceChild(sf, target, sidx)
+				sidx++
+				what := fmt.Sprintf("Merge(%s) under %s", sc.desc, sf)
+				if !ok {
+					r.count("fault.strace.unavailable")
+					continue
+				}
+				r.count("fault.strace." + sf.sys)
+				if out.Err == "" && (sf.sys != "write" || sf.when == 1) {
+					r.fail("C17.success-incomplete", "Merge", "%s reported success although the %s of its output failed", what, sf.sys)
+				}
+				if out.Err != "" {
+					r.NonTrivial = true
+					if fileExists(target) {
+						r.fail("C17.file-left-behind", "Merge", "%s returned %q but left a file behind", what, out.Err)
+					}
+				} else {
+					w.checkCompleteMerge("C17", what, target, out.Maps, out.Size, ref)
+				}
+				os.Remove(target)
+				r.evv("merge "+sf.sys, "%s -> err=%v", what, out.Err != "")
 			}
 		}
 		p := r.path("retry")
@@ -676,4 +777,90 @@ func cancelledMerges(r *RunCtx) {
 	}
 	r.count("op.merge")
 	r.Sample["ops"] = r.Events
+}
+
+// ---------------------------------------------------------------------------
+// syscall-level faults through strace (ptrace): EIO from the n-th write, from
+// fsync and from close on the output file. The worker re-executes itself as a
+// child under `strace -P <target> -e inject=...`; the child replays the
+// parent's choice trace up to this point, performs the one designated
+// operation on <target>, writes the outcome to <target>.result and exits. Only
+// syscalls that touch <target> are affected. If ptrace is not available the
+// fault kind is counted as unavailable and nothing is judged.
+
+type straceFault struct {
+	sys  string
+	when int
+}
+
+func (f straceFault) String() string { return fmt.Sprintf("strace %s #%d -> EIO", f.sys, f.when) }
+
+var straceFaults = []straceFault{{"fsync", 1}, {"close", 1}, {"write", 1}, {"write", 2}}
+
+type straceOutcome struct {
+	Err   string     `json:"err"`
+	Maps  [][]uint64 `json:"maps,omitempty"`
+	Size  uint64     `json:"size"`
+	Fired bool       `json:"fired"`
+}
+
+// straceChildOp is called by both parent and child at every strace-able
+// operation. In the child it performs the designated one and exits.
+func (r *RunCtx) straceChildOp(op func(path string) straceOutcome) {
+	if r.straceTarget == "" {
+		return
+	}
+	idx := r.straceSeen
+	r.straceSeen++
+	if idx != r.straceIdx {
+		return
+	}
+	out := op(r.straceTarget)
+	b, _ := json.Marshal(&out)
+	os.WriteFile(r.straceTarget+".result", b, 0o600)
+	os.Exit(0)
+}
+
+// runStraceChild re-executes this worker under strace for the idx-th
+// strace-able operation of the run. ok=false: strace/ptrace unavailable or the
+// child did not get there.
+func (r *RunCtx) runStraceChild(f straceFault, target string, idx int) (out straceOutcome, ok bool) {
+	strace, err := exec.LookPath("strace")
+	if err != nil {
+		return out, false
+	}
+	rf := ReplayFile{Property: r.Prop, Tier: r.Tier, Seed: 0, Run: r.Idx, Trace: append([]int(nil), r.ch.trace...)}
+	tf := target + ".trace.json"
+	b, _ := json.Marshal(&rf)
+	if err := os.WriteFile(tf, b, 0o600); err != nil {
+		return out, false
+	}
+	self, _ := os.Executable()
+	args := []string{"-f", "-o", "/dev/null", "-P", target, "-e", "trace=" + f.sys,
+		"-e", fmt.Sprintf("inject=%s:error=EIO:when=%d", f.sys, f.when),
+		self, "-replay", tf, "-straceChild", target, "-straceIdx", fmt.Sprint(idx)}
+	cmd := exec.Command(strace, args...)
+	cmd.Stdout, cmd.Stderr = nil, nil
+	done := make(chan error, 1)
+	if err := cmd.Start(); err != nil {
+		return out, false
+	}
+	go func() { done <- cmd.Wait() }()
+	select {
+	case <-done:
+	case <-time.After(60 * time.Second):
+		cmd.Process.Kill()
+		<-done
+		return out, false
+	}
+	rb, err := os.ReadFile(target + ".result")
+	if err != nil {
+		return out, false
+	}
+	if json.Unmarshal(rb, &out) != nil {
+		return out, false
+	}
+	os.Remove(target + ".result")
+	os.Remove(tf)
+	return out, true
 }
